@@ -55,3 +55,23 @@ fn keys_nonzero_distinct() {
     assert!(key_at(i) != 0);
     assert!(key_at(i) != key_at(j));
 }
+
+/// "identifies the position" beyond single components, for the cheapest structured case: exchanging two pieces (any kinds,
+/// any colours) between two squares, or swapping the colours of two pieces, must change the hash — i.e. no four piece-square
+/// keys of the shape k(a,x) ^ k(b,y) ^ k(b,x) ^ k(a,y) cancel (a, b = piece+colour, x != y).  A key table built as
+/// "white key xor one colour constant" (seed C06-8) has exactly this dependency while all keys stay distinct and non-zero.
+#[kani::proof]
+fn two_piece_exchange_changes_hash() {
+    let pa: u64 = kani::any();
+    let pb: u64 = kani::any();
+    let ca: u32 = kani::any();
+    let cb: u32 = kani::any();
+    let x: u32 = kani::any();
+    let y: u32 = kani::any();
+    kani::assume(1 <= pa && pa <= 6 && 1 <= pb && pb <= 6 && ca <= 1 && cb <= 1 && x < 64 && y < 64 && x != y);
+    kani::assume(pa != pb || ca != cb);
+    kani::cover!(pa == 2 && pb == 2 && ca == 0 && cb == 1 && x == 36 && y == 28);
+    let before = Zobrist::piece_square_hash(pa, x, ca) ^ Zobrist::piece_square_hash(pb, y, cb);
+    let after = Zobrist::piece_square_hash(pb, x, cb) ^ Zobrist::piece_square_hash(pa, y, ca);
+    assert!(before != after);
+}
